@@ -11,7 +11,7 @@
 (***************************************************************************)
 EXTENDS Legacy, Json
 
-CONSTANTS MaxOps, MaxHandles, GenClasses, MaxKids, Ops, Modes, DupModes, Atoms,
+CONSTANTS MaxOps, MaxHandles, GenClasses, MaxKids, Ops, Modes, DupModes, Atoms, TRules,
           Prelude      \* a program run before the exploration starts (<<>>: start from nothing); counts towards MaxOps
 
 VARIABLES S,        \* the machine state [obj, reg]
@@ -23,7 +23,7 @@ VARIABLES S,        \* the machine state [obj, reg]
 vars == <<S, nh, hist, last, clean, twin>>
 
 Op(op, c, a, b, kids, atom, mode) == [op |-> op, c |-> c, a |-> a, b |-> b, kids |-> kids, atom |-> atom, mode |-> mode]
-Creating == {"create", "replace_prop", "replace_kids", "duplicate"}
+Creating == {"create", "replace_prop", "replace_kids", "duplicate", "tvisit", "texec"}
 LeafLike == {"LLeaf", "LSub"}
 
 Hs == {i \in 1..nh : H(i) \in DOMAIN S.obj}
@@ -43,9 +43,17 @@ Positions(T) == UNION {{<<KidsOf(T, n)[j].n, n, j>> : j \in 1..Len(KidsOf(T, n))
 NoDouble(T) == \A x, y \in Positions(T) : x[1] = y[1] => x = y
 TwinNested(T) == \E n \in Names(T) : \E m \in Reach(T.obj, n) \ {n} : T.obj[m].id = T.obj[n].id
 
+(* a visitor whose rule returns None for a leaf in a required single field is a misuse the harness does not run *)
+DropAdmissible(n, at) == ~\E u \in Below(n) : /\ S.obj[u].c = "LUnary"
+                                              /\ S.obj[S.obj[u].k["child"]].c \in LeafLike
+                                              /\ S.obj[S.obj[u].k["child"]].p["a"] = at
+
+FreshLeafKey(T) == IdKeyStr(T, "LLeaf", 0, DefaultProps("LLeaf", 2), <<>>)
+
 Do(op) ==
     LET nm == H(nh + 1)
-        d == IF op.op = "create" THEN CreateKey(S, op) ELSE ""
+        d == IF op.op = "create" THEN CreateKey(S, op)
+             ELSE IF op.op \in {"tvisit", "texec"} THEN FreshLeafKey(S) ELSE ""       \* what the `fresh` rule builds
         r == Apply(S, op, nm, d)
     IN /\ Len(hist) < MaxOps
        /\ op.op \in Ops
@@ -53,7 +61,8 @@ Do(op) ==
        /\ nh' <= MaxHandles
        /\ S' = r.S
        /\ hist' = Append(hist, op)
-       /\ last' = [err |-> r.err, partial |-> r.partial, same |-> r.S = S, pre |-> clean /\ ~twin]
+       /\ last' = [err |-> r.err, partial |-> r.partial, same |-> r.S = S, pre |-> clean /\ ~twin, op |-> op.op,
+                   att |-> op.a # 0 /\ ~Detached(S, H(op.a))]
        /\ clean' = (clean /\ r.err = "" /\ NoDouble(r.S))
        /\ twin' = (twin \/ TwinNested(r.S))
 
@@ -74,17 +83,21 @@ Next ==
                                 /\ Do(Op("replace_with", "", a, b, <<>>, 0, ""))
          \/ Do(Op("replace_with_none", "", a, 0, <<>>, 0, ""))
          \/ \E dm \in DupModes : Do(Op("duplicate", "", a, 0, <<>>, 0, dm))
+         \/ \E r \in TRules, at \in Atoms : /\ (r = "drop" => DropAdmissible(H(a), at))
+                                            /\ Do(Op("tvisit", "", a, 0, <<>>, at, r))
+         \/ \E r \in TRules \ {"boom"}, at \in Atoms : Do(Op("texec", "", a, 0, <<>>, at, r))
 
 RECURSIVE RunFrom(_, _, _)
 RunFrom(T, n, ops) ==
     IF ops = <<>> THEN [S |-> T, nh |-> n]
     ELSE LET op == Head(ops)
-             r == Apply(T, op, H(n + 1), IF op.op = "create" THEN IdKeyStr(T, CreateArgs(T, op).c, CreateArgs(T, op).o, CreateArgs(T, op).p, CreateArgs(T, op).k) ELSE "")
+             r == Apply(T, op, H(n + 1), IF op.op = "create" THEN IdKeyStr(T, CreateArgs(T, op).c, CreateArgs(T, op).o, CreateArgs(T, op).p, CreateArgs(T, op).k)
+                                         ELSE IF op.op \in {"tvisit", "texec"} THEN FreshLeafKey(T) ELSE "")
          IN RunFrom(r.S, IF op.op \in Creating THEN n + 1 ELSE n, Tail(ops))
 
 Init == LET st == RunFrom([obj |-> <<>>, reg |-> <<>>], 0, Prelude) IN
         /\ S = st.S
-        /\ nh = st.nh /\ hist = Prelude /\ last = [err |-> "", partial |-> FALSE, same |-> TRUE, pre |-> TRUE]
+        /\ nh = st.nh /\ hist = Prelude /\ last = [err |-> "", partial |-> FALSE, same |-> TRUE, pre |-> TRUE, op |-> "", att |-> FALSE]
         /\ clean = TRUE /\ twin = FALSE
 
 (* states are compared without the program that reached them: one witness per distinct state *)
@@ -119,6 +132,10 @@ UnguardedC19 == last.pre /\ last.err # "" => last.same
 C19Frame == last.pre /\ last.err # "" => (last.same \/ last.partial)
 (* the deviation never goes with the errors that are raised before any effect *)
 C19EarlyErrorsClean == last.pre /\ last.err \in {"ASTNodeDuplicateChildrenError", "ASTNodeIDCollisionError", "ASTNodeReplaceError"} => last.same
+
+(* the visitor works on a detached clone of an attached receiver and replaces only on success: a failed transformation
+   of an attached node from a consistent state changes nothing *)
+C19VisitorAtomic == last.pre /\ last.op = "tvisit" /\ last.att /\ last.err # "" => last.same
 
 (* export: the witness program of every transition TLC takes *)
 Emit == PrintT(ToJson([m |-> "legacy-script", prog |-> hist']))
